@@ -1,6 +1,7 @@
 import LabtechModel.Proofs.Submit
 import LabtechModel.Proofs.Plan
 import LabtechModel.Proofs.InvMain
+import LabtechModel.Proofs.Inv2Count
 /-!
 # C05 — Runnable work is started whenever capacity is free
 
@@ -19,6 +20,15 @@ the master invariant of `Proofs/InvLoop.lean`):
   nothing more can be started;
 * `no_idle_worker_at_rest`: for process runners, at every resting point (after the submit phase of
   every reachable loop head) no worker slot is idle while a future is queued.
+* `executing_equals_min_at_rest`: the counting equation. At every resting point of a running
+  coordinator, process backends: `#running = min max_workers #active` and `#queued = #active - #running`;
+  serial backend: no worker, the deque holds exactly the active tasks and the `wait` that follows
+  starts exactly `min 1 #active` tasks (`serial_wait_executes_one_iff`: one iff something is active);
+* `active_is_maximal`: at every resting point the active set is admissible (all dependencies
+  finished, no type above its `max_parallel`) and maximal: adding any single pending task breaks
+  admissibility. So "executing = min(max_workers, runnable tasks the per-type limits allow)" holds
+  with "runnable the limits allow" = the maximal admissible set `get_ready_tasks` builds greedily in
+  `pending_tasks` order (`Admissible_spec` spells the predicate out).
 -/
 namespace Lt.Props.C05
 open Lt
@@ -170,5 +180,111 @@ example :
     rs.status = .running ∧ readyTasks invExP rs.ts = [1, 2] ∧
     (submitAll invExCfg invExP (readyTasks invExP rs.ts) rs).ts.pending = [3] ∧
     (submitAll invExCfg invExP (readyTasks invExP rs.ts) rs).running.map Job.tid = [1, 2] := by decide
+
+/-! ## the counting equation -/
+
+/-- reading of `startedOf`: the tids of the `start` events, in order -/
+theorem startedOf_spec (tr : List Ev) (t : Tid) : t ∈ startedOf tr ↔ Ev.start t ∈ tr := by
+  simp only [startedOf, List.mem_filterMap]
+  constructor
+  · rintro ⟨e, he, h⟩
+    cases e <;> simp [evStartTid] at h
+    subst h; exact he
+  · intro h; exact ⟨_, h, rfl⟩
+
+/-- at every resting point of a running coordinator: executing = min(max_workers, active) for
+    process backends (the other active tasks are queued in the executor); for the serial backend
+    nothing executes outside `wait`, and the `wait` that follows executes `min 1 #active` tasks -/
+theorem executing_equals_min_at_rest (cfg : Config) (p : Problem) (store : Store) (fuel : Nat) (sched : List Choice) :
+    let rs := runLoop cfg p (reqTids p) sched (initRS cfg p store fuel)
+    let rs' := submitAll cfg p (readyTasks p rs.ts) rs
+    rs.status = .running →
+    (cfg.backend ≠ .serial →
+      rs'.running.length = min cfg.maxWorkers rs'.ts.active.length ∧
+      rs'.queued.length = rs'.ts.active.length - rs'.running.length) ∧
+    (cfg.backend = .serial →
+      rs'.running = [] ∧ rs'.queued.length = rs'.ts.active.length ∧
+      (startedOf (waitSerial cfg p (reqTids p) rs').trace).length
+        = (startedOf rs'.trace).length + min 1 rs'.ts.active.length) := by
+  intro rs rs' hrun
+  refine ⟨fun hb => rest_count_process cfg p store fuel sched hb hrun, fun hb => ?_⟩
+  obtain ⟨h1, h2⟩ := rest_count_serial cfg p store fuel sched hb hrun
+  refine ⟨h1, h2, ?_⟩
+  rw [waitSerial_started, List.length_append, List.length_map, List.length_take]
+  show _ = _ + min 1 (restState cfg p store fuel sched).ts.active.length
+  rw [← h2]
+
+/-- serial backend: the `wait` at a resting point starts exactly one task iff something is active,
+    and nothing otherwise -/
+theorem serial_wait_executes_one_iff (cfg : Config) (p : Problem) (store : Store) (fuel : Nat) (sched : List Choice)
+    (hb : cfg.backend = .serial) :
+    let rs := runLoop cfg p (reqTids p) sched (initRS cfg p store fuel)
+    let rs' := submitAll cfg p (readyTasks p rs.ts) rs
+    rs.status = .running →
+    ((∃ t, startedOf (waitSerial cfg p (reqTids p) rs').trace = startedOf rs'.trace ++ [t]) ↔
+      rs'.ts.active ≠ []) ∧
+    (rs'.ts.active = [] → startedOf (waitSerial cfg p (reqTids p) rs').trace = startedOf rs'.trace) := by
+  intro rs rs' hrun
+  obtain ⟨_, h2⟩ := rest_count_serial cfg p store fuel sched hb hrun
+  have h2' : rs'.queued.length = rs'.ts.active.length := h2
+  rw [waitSerial_started]
+  cases hq : rs'.queued with
+  | nil =>
+    have ha : rs'.ts.active = [] := by
+      rw [hq] at h2'
+      exact List.eq_nil_of_length_eq_zero h2'.symm
+    refine ⟨⟨?_, fun h => absurd ha h⟩, fun _ => by simp⟩
+    rintro ⟨t, ht⟩
+    have := congrArg List.length ht
+    simp at this
+  | cons j rest =>
+    have ha : rs'.ts.active ≠ [] := by
+      intro h0
+      rw [hq, h0] at h2'
+      simp at h2'
+    exact ⟨⟨fun _ => ha, fun _ => ⟨j.tid, by simp⟩⟩, fun h0 => absurd h0 ha⟩
+
+/-- reading of `Admissible`: the tasks may be in flight together — every direct dependency of each
+    of them has been delivered, and no type has more members than its `max_parallel` -/
+theorem Admissible_spec (p : Problem) (P : TS) (Y A : List Tid) :
+    Admissible p P Y A ↔
+      ((∀ t ∈ A, ∀ d ∈ P.ddeps t, d ∈ Y) ∧
+       ∀ T L, p.maxPar T = some L → (A.filter (fun t => p.ty t = T)).length ≤ L) := Iff.rfl
+
+/-- at every resting point the active set is a maximal admissible set: it is admissible, and adding
+    any single pending task makes it inadmissible (unfinished dependency, or type limit exceeded) -/
+theorem active_is_maximal (cfg : Config) (p : Problem) (store : Store) (fuel : Nat) (sched : List Choice) :
+    let rs := runLoop cfg p (reqTids p) sched (initRS cfg p store fuel)
+    let rs' := submitAll cfg p (readyTasks p rs.ts) rs
+    rs.status = .running →
+    Admissible p (plan cfg p store fuel) (yielded rs') rs'.ts.active ∧
+    ∀ t ∈ rs'.ts.pending, ¬ Admissible p (plan cfg p store fuel) (yielded rs') (rs'.ts.active ++ [t]) := by
+  intro rs rs' hrun
+  obtain ⟨hc, _, _⟩ := submitPhase_reach (plan_PI cfg p store fuel) (reach_all cfg p store fuel sched) hrun
+  refine ⟨⟨hc.ts.actDeps, submitAll_limit cfg p _ (loopHead_limit cfg p store fuel sched)⟩, ?_⟩
+  intro t ht hadm
+  rcases resting_point_blocked cfg p store fuel sched hrun t ht with ⟨d, hd, hdy⟩ | ⟨L, hL, hle⟩
+  · exact hdy (hadm.1 t (by simp) d hd)
+  · have h0 := hadm.2 _ L hL
+    rw [typeCount_append] at h0
+    have h1 : typeCount p [t] (p.ty t) = 1 := by simp [typeCount]
+    have hle' : L ≤ typeCount p rs'.ts.active (p.ty t) := hle
+    omega
+
+/-- non-vacuity: three independent tasks of one type with `max_parallel = 2`, one worker: at the first
+    resting point two tasks are active (the limit), one executes (`min 1 2`), one is queued; with
+    the serial runner the wait starts exactly one task; the third task cannot be added -/
+example :
+    let cfg1 : Config := { exCfg with maxWorkers := 1 }
+    let rs' := submitAll cfg1 exP (readyTasks exP (initRS cfg1 exP [] 4).ts) (initRS cfg1 exP [] 4)
+    rs'.ts.active = [0, 1] ∧ rs'.running.map Job.tid = [0] ∧ rs'.queued.map Job.tid = [1] ∧
+    rs'.running.length = min cfg1.maxWorkers rs'.ts.active.length ∧ rs'.ts.pending = [2] ∧
+    typeCount exP (rs'.ts.active ++ [2]) 0 = 3 := by decide
+
+example :
+    let cfgS : Config := { exCfg with backend := .serial }
+    let rs' := submitAll cfgS exP (readyTasks exP (initRS cfgS exP [] 4).ts) (initRS cfgS exP [] 4)
+    rs'.queued.map Job.tid = [0, 1] ∧ startedOf rs'.trace = [] ∧
+    startedOf (waitSerial cfgS exP (reqTids exP) rs').trace = [0] := by decide
 
 end Lt.Props.C05
